@@ -179,6 +179,19 @@ func report(g *Gen, p *PropConfig, bl *Baseline, out *CheckOutcome, tier string,
 			lostSafety[k] = id
 		}
 	}
+	// A NEW crash site (index, slice, make, division) fed by a number that comes from the peer, which does
+	// not discharge: exactly what C12 forbids, so it is reported even without a counter-model.
+	var peerSites []*OblResult
+	if p.ID == "C12" || p.StrictSafety {
+		for _, r := range out.Results {
+			if r.Cover || !(r.Peer || (p.StrictSafety && r.Safety)) || bl.Claimed[r.ID] || bl.NotClaimed[r.ID] || r.Answer == "unsat" || r.Answer == "sat" || r.Answer == "skipped" {
+				continue
+			}
+			if _, isKnown := known[r.ID]; !isKnown {
+				peerSites = append(peerSites, r)
+			}
+		}
+	}
 	var replaced []*OblResult
 	if len(lostSafety) > 0 {
 		for _, r := range out.Results {
@@ -228,6 +241,27 @@ func report(g *Gen, p *PropConfig, bl *Baseline, out *CheckOutcome, tier string,
 		vioLines = append(vioLines, line)
 	}
 
+	for _, r := range peerSites {
+		dup := false
+		for _, x := range replaced {
+			if x == r {
+				dup = true
+			}
+		}
+		if dup {
+			continue
+		}
+		os.MkdirAll(replayDir, 0o755)
+		path := filepath.Join(replayDir, sanitize(r.ID)+"_peer.txt")
+		rep := tryReplay(g, p, r, verif, repo)
+		msg := fmt.Sprintf("property: %s\nobligation: %s\nkind: %s\nsource: %s\nstatus: new in this tree; a panic site (index / slice bound / allocation size / divisor / assertion) that the property forbids - fed by a number received from the peer, or inside a function the property requires never to fail - and its bound does not discharge (solver answer: %s)\nreplay: %s\n", p.ID, r.ID, r.Kind, strings.Join(r.Src, " "), r.Answer, rep.Summary)
+		os.WriteFile(path, []byte(msg), 0o644)
+		line := fmt.Sprintf("VIOLATION property=%s replay=%s obligation=%s", p.ID, path, r.ID)
+		if !rep.Confirmed {
+			line += " no-failing-input-found"
+		}
+		vioLines = append(vioLines, line)
+	}
 	for _, r := range replaced {
 		os.MkdirAll(replayDir, 0o755)
 		path := filepath.Join(replayDir, sanitize(r.ID)+"_replaced.txt")
